@@ -123,6 +123,8 @@ func loopOfRange(fn *ssa.Function, rg *ssa.Range) *natLoop {
 func checkC11(p *Prog, r *Result, tier string) {
 	r.Rule("C11.R1", "both inclusions: the schema control has a loop over the directory set that can return ErrIndexCorrupted after looking the uuid up in the index, and a loop over the indexed uuids that can return ErrIndexCorrupted after looking it up in the directory set", 2)
 	r.Rule("C11.R2", "internal consistency first: the index-level control runs (and succeeds) before the directory is listed; it is a loop over all field indexes that consults the ordering test and the size comparison of each", 2)
+	r.Rule("C11.R6", "the schema control succeeds only through both inclusion loops: no path returns a nil error without having reached the directory-versus-index loop and the index-versus-directory loop (whatever the configuration predicates say)", 2)
+	r.Rule("C11.R7", "only membership divergence is repairable: the index-level control (ordering and size of every field index) never reports an error of the ErrIndexCorrupted class, because the loader publishes a schema under that class and Repair can only add and drop entries", 1)
 	r.Rule("C11.R3", "a corrupted schema is still loaded: under errors.Is(err, ErrIndexCorrupted) the loader publishes the schema and returns it with the error; under any other error nothing is published", 2)
 	r.Rule("C11.R4", "Repair never writes, truncates or removes an object file or the tree; it indexes unindexed files only after a successful read of the file (or, with caching on, of its cached copy) and through the accepting (constraint-checking) insertion; it un-indexes entries absent from disk; its successful return is preceded by the directory listing", 5)
 	r.Rule("C11.R5", "Control() iterates over the whole schema table and calls the schema control in every iteration", 1)
@@ -176,8 +178,17 @@ func checkC11(p *Prog, r *Result, tier string) {
 			if st.trackIter && st.iter.Has(EErrCorrupted) && st.User&1 != 0 {
 				seenRet = true
 			}
+			// the control cannot succeed without having reached this loop (in loop mode a path that reaches the
+			// header ends at the loop's exit: a return seen with tracking off never got there)
+			if e, has := errResult(ctl, res); !st.trackIter && len(st.frames) == 1 && has && e != triNo {
+				l.bad("C11.R6", FuncName(ctl), "success only after the "+construct, "the schema control can return success on a path that skips this inclusion loop: the divergence it looks for goes unreported (on load, and by Control)", l.p.Pos(ret.Pos()), x, st, ret)
+			} else if st.trackIter || (has && e == triNo) {
+				l.ok("C11.R6", FuncName(ctl), "success only after the "+construct, l.p.Pos(ret.Pos()))
+			}
 		}
-		l.onEnd = func(l *effListener, x *Explorer, st *State, reason string) {}
+		l.onEnd = func(l *effListener, x *Explorer, st *State, reason string) {
+			l.ok("C11.R6", FuncName(ctl), "success only after the "+construct, "")
+		}
 		x := NewExplorer(p, c, ctl, Valuation{}, l)
 		x.LoopFn, x.LoopHeader = lfn, lp.header
 		x.LoopBlocks = map[*ssa.BasicBlock]bool{}
@@ -326,6 +337,12 @@ func checkC11(p *Prog, r *Result, tier string) {
 		}
 		if n == 0 {
 			r.Report("C11.R2", FuncName(oic), "per field: ordering test and size comparison", Violated, "index-level control does not iterate over the field indexes", p.Pos(oic.Pos()), nil, true)
+		}
+		// R7: its verdicts are not of the repairable class
+		if c.Of(oic).Has(EErrCorrupted) {
+			r.Report("C11.R7", FuncName(oic), "ordering / size failures are not of the corrupted-index class", Violated, "the index-level control reports ErrIndexCorrupted: the loader keeps (publishes) a schema under that verdict so that Repair can re-synchronise membership, but Repair only adds and drops entries; an index that is unordered or of the wrong size would be served to every later call (wrong results, and the index panics recorded as known findings become reachable)", p.Pos(oic.Pos()), nil, true)
+		} else {
+			r.Report("C11.R7", FuncName(oic), "ordering / size failures are not of the corrupted-index class", Discharged, "", p.Pos(oic.Pos()), nil, true)
 		}
 	} else {
 		r.Report("C11.R2", "objIndex.control", "function", Undecided, "index-level control not found", "", nil, false)
@@ -533,6 +550,7 @@ func init() { register("C11", checkC11) }
 func checkC17(p *Prog, r *Result, tier string) {
 	r.Rule("C17.R1", "MUST-BEFORE: in every handle entry point except Drop and Create (and in the flusher), every file mutation (write, remove, mkdir, rename) is preceded on its path by a successful schema acquisition", 4)
 	r.Rule("C17.R2", "the structure check gates publication: the loader publishes a schema only after a successful control (or a corrupted-index verdict), and never when the struct changed", 1)
+	r.Rule("C17.R6", "Create on an existing collection changes the runtime settings only: the fields of the stored (published) schema that determine the on-disk layout (Extension, Compress, Fields) are never written; such stores only ever hit the caller's own schema value", 0)
 	r.Rule("C17.R3", "Create: settings are assigned and the schema file overwritten only after a successful compatibility check; a new collection's schema file is written only when none exists and published only after a successful control", 3)
 	r.Rule("C17.R4", "compatibility is symmetric: both descriptor comparisons range over both maps, look each path up in the other map and use the same comparator both ways", 2)
 	r.Rule("C17.R5", "settings are read safely: every dereference of the async settings pointer happens where the pointer is known to be non-nil (nil test or enabled-predicate on the same path)", 3)
@@ -614,6 +632,16 @@ func checkC17(p *Prog, r *Result, tier string) {
 		vals := []Valuation{{FileExists: triYes}, {FileExists: triNo}}
 		exploreAll(p, c, jobsFor([]*ssa.Function{cr}, vals), effs(EOkCompat, EOkSchema, EOkStruct), r, func(j exploreJob) Listener {
 			return &effListener{p: p, r: r, root: j.root, val: j.val, onEvent: func(l *effListener, x *Explorer, st *State, ev *Event) {
+				if ev.Kind == EvAccess && ev.Write && ev.Struct == a.Schema && (ev.Field == a.SchCompress || ev.Field == a.SchExtension || ev.Field == a.SchFields) {
+					if _, isStore := ev.Instr.(*ssa.Store); isStore {
+						if ev.Tags&(TFresh|TDecoded) != 0 && ev.Tags&TFromTbl == 0 {
+							l.ok("C17.R6", FuncName(cr), "layout fields written on the caller's schema value only", l.p.Pos(ev.Instr.Pos()))
+						} else {
+							l.bad("C17.R6", FuncName(cr), "layout fields written on the caller's schema value only", "Create changes "+ev.Field.Name()+" of the stored schema: the files already on disk were written under the old value (name suffix, encoding, descriptors) and nothing migrates them, they become unreadable", l.p.Pos(ev.Instr.Pos()), x, st, ev.Instr)
+						}
+					}
+					return
+				}
 				if ev.Kind != EvEffect {
 					return
 				}
